@@ -200,8 +200,22 @@ func (x *Exec) evalArgs(call *ast.CallExpr, sig *types.Signature, st *State) []T
 			elem := x.sortOf(st0.Elem())
 			arr := x.constArray(arraySort(SInt, elem), x.zero(st0.Elem()))
 			n := 0
+			x.lastVarargs = x.lastVarargs[:0]
 			for j := i; j < len(call.Args); j++ {
-				arr = store(arr, intLit(int64(n)), x.evalTo(call.Args[j], st, st0.Elem()))
+				raw := x.eval(call.Args[j], st)
+				from := x.info().TypeOf(call.Args[j])
+				x.lastVarargs = append(x.lastVarargs, rawArg{raw, from})
+				var cv Term
+				if from != nil && isNilType(from) {
+					if _, ok := st0.Elem().Underlying().(*types.Slice); ok {
+						cv = x.zero(st0.Elem())
+					} else {
+						cv = x.convert(st, raw, from, st0.Elem())
+					}
+				} else {
+					cv = x.convert(st, raw, from, st0.Elem())
+				}
+				arr = store(arr, intLit(int64(n)), cv)
 				n++
 			}
 			arr = x.name(st, "varargs", arr)
